@@ -132,6 +132,7 @@ type GenOpts struct {
 	MaxReorg    int
 	Sectors     int                                                              // > 0: contract data mostly whole sectors (World.Sectors)
 	LibProver   bool                                                             // honest proofs over sector files come from the library's provers
+	StrayProofs bool                                                             // ephemeral v2 parents sometimes carry meaningless Merkle proofs (World.StrayProofs)
 	HugeFiles   bool                                                             // contract formation sometimes commits to a virtual file of up to 2^64-1 bytes (World.Huge)
 	OnBlock     func(g *Gen, b *Builder)                                         // extra actions before Fill (property-specific scenarios); nil: SameBlockScenarios
 	NoScenarios bool                                                             // with OnBlock == nil: do not force same-block combinations
@@ -153,7 +154,7 @@ type Gen struct {
 func NewGen(t *rapid.T, o GenOpts) *Gen {
 	n, genesis := GenNetwork(t, o.Net)
 	w := NewWorld()
-	w.Sectors, w.LibProver, w.Huge = o.Sectors, o.LibProver, o.HugeFiles
+	w.Sectors, w.LibProver, w.Huge, w.StrayProofs = o.Sectors, o.LibProver, o.HugeFiles, o.StrayProofs
 	w.RegisterGenesis()
 	ch, _, err := NewChain(n, genesis)
 	if err != nil {
